@@ -12,6 +12,42 @@ CLAIMED = {
              '1e6<=d<1e16 re-validated per case; float(repr x)=x assumed); the float itself is outside the model.',
         technique='Coq proof over executable Gallina model + differential correspondence (extracted OCaml) + direct oracle',
         ref='7/C13'),
+    'C03': dict(
+        text='Layered theorems on the models of the text exposition (model/Expo.v) and text parser (model/TextParser.v): the parser\'s '
+             'unescaping inverts the exposition\'s escaping for every string, chained str.replace = single pass (more layers are added as '
+             'they are proved; props/C03.v lists exactly what is proved). Tie: byte-exact differential testing of generate_latest '
+             'against the extracted renderer and of text_string_to_metric_families against the extracted parser on generated '
+             'registries, plus the direct round-trip oracle parse(expose(r)) == munge(collect(r)).',
+        note='Partial: the document-level round-trip theorem (L5) is covered by correspondence + direct oracle, not yet by a theorem. '
+             'Trusted: Coq kernel, extraction/driver, CPython int()/float()/repr() (answered by CPython over the oracle pipe), '
+             'str.strip whitespace table, StringIO line splitting.',
+        technique='Coq proof over executable Gallina models + differential correspondence + direct round-trip oracle',
+        ref='7/C03'),
+    'C04': dict(
+        text='Shared escaping/unescaping inverse theorem; OpenMetrics exposition model tied byte-exactly to generate_latest; direct '
+             'oracle parse(expose(r)) == collect(r) on generated registries with units, exemplars and the three timestamp forms '
+             '(direction 1) and parse(expose(parse(d))) == parse(d) on accepted documents (direction 2, when harness/c04b.py is present).',
+        note='Partial: the family-level inverse theorems are not yet proved; what a run stands on is listed in props/C04.v. Trusted: as C03 '
+             'plus samples.Timestamp arithmetic.',
+        technique='Coq proof over executable Gallina models + differential correspondence + direct round-trip oracle',
+        ref='7/C04'),
+    'C05': dict(
+        text='Theorems: escaped text never contains a raw line feed (the core of every line-structure argument). An independent line '
+             'grammar (model/LineGrammar.v, extracted) judges every line of the implementation\'s text, OpenMetrics and Graphite output; '
+             'line counts are checked against the collected families; renderers are tied byte-exactly to the models.',
+        note='Partial until the per-line grammar-acceptance theorem is proved. Trusted: Coq kernel, extraction/driver, the grammar itself '
+             '(it is the specification), CPython repr characters, socket layer of the Graphite bridge (interposed).',
+        technique='Coq proof over executable Gallina models + extracted independent grammar as oracle + differential correspondence',
+        ref='7/C05'),
+    'C14': dict(
+        text='Model of the text parser in a result monad in which every Python operation that can raise does so with its exception '
+             'class; theorems that the repaired helpers raise only ValueError and refutation witnesses for the pinned source; outcome '
+             'class and parsed families compared with the implementation on valid documents, all truncations, token-level mutations '
+             'and all short strings over the special alphabet, each under a watchdog.',
+        note='Partial: whole-parser totality theorem in progress; OpenMetrics half merged when harness/c14om.py is present. Trusted: '
+             'CPython int()/float() raise only ValueError on str (OverflowError of int/1000 is modelled), re classes.',
+        technique='Coq proof over executable Gallina model (result monad) + differential correspondence + direct totality oracle',
+        ref='7/C14'),
 }
 
 ALL = ['C%02d' % i for i in range(1, 20)]
